@@ -19,7 +19,7 @@ WHAT = {
 ACTIONS = ["StartDoc", "PickLimit", "RunTest", "OnCode", "ValidateDoc", "EndDoc", "Finish"]
 FOCUS_ACTIONS = {"C05": ["OnUnknown"], "C14": ["OnTimeout"], "C15": ["OnSkip", "OnUnknown"], "C20": ["OnSkip", "OnDetached", "OnUnknown", "OnScriptExit"]}
 QUICK = {"C05": 450, "C14": 260, "C15": 400, "C20": 260}
-THOROUGH = {"C05": 4000, "C14": 400, "C15": 3000, "C20": 3000}
+THOROUGH = {"C05": 6000, "C14": 400, "C15": 4500, "C20": 6000}
 
 
 def _cfg(work, name, focus, body):
